@@ -5,6 +5,7 @@ import (
 	"math/rand"
 	"net"
 	"os"
+	"os/exec"
 	"regexp"
 	"strconv"
 	"sync"
@@ -253,6 +254,69 @@ func c14(r *vlib.Run) int {
 	return min
 }
 
+// c14DescriptorShortage: a server that runs out of file descriptors for a while (more connection attempts at once than
+// its RLIMIT_NOFILE allows - the limit is lowered from outside with prlimit(1)). Once the attempts are gone again,
+// fewer connections than MaxConnections are open and a new one must be accepted and served.
+func c14DescriptorShortage(r *vlib.Run) {
+	if _, err := exec.LookPath("prlimit"); err != nil {
+		r.Count("descriptor_shortage_skipped_no_prlimit", 1)
+		return
+	}
+	key := clientKey()
+	rounds := r.N(1, 4)
+	for k := 0; k < rounds; k++ {
+		spec := &vlib.ServerSpec{Name: fmt.Sprintf("c14nofile%d", k), Server: map[string]interface{}{"MaxConnections": 5}, LogLevel: "info",
+			Users: map[string][]string{"tester": {key.AuthKey}}}
+		srv, err := r.StartServer(spec)
+		if err != nil {
+			r.Inconclusive("server-start")
+			return
+		}
+		d := &c14Driver{addr: srv.Addr(), key: key}
+		ok0, c0 := d.connect("shell1")
+		if c0 != nil {
+			c0.client.Close()
+		}
+		if out, err := exec.Command("prlimit", "--nofile=64:64", "--pid", fmt.Sprint(srv.D.Pid())).CombinedOutput(); err != nil || !ok0 {
+			r.Inconclusive("prlimit: " + vlib.Trunc(string(out), 100))
+			srv.Stop()
+			continue
+		}
+		var held []net.Conn
+		for i := 0; i < 150+50*k; i++ {
+			if c, err := net.DialTimeout("tcp", srv.Addr(), 3*time.Second); err == nil {
+				held = append(held, c)
+			}
+		}
+		time.Sleep(1500 * time.Millisecond)
+		for _, c := range held {
+			c.Close()
+		}
+		r.Eval(fmt.Sprintf("descriptor-shortage|%d", k))
+		r.Count("descriptor_shortage_rounds", 1)
+		r.Count("descriptor_shortage_connections_held", len(held))
+		served := false
+		deadline := time.Now().Add(25 * time.Second)
+		attempts := 0
+		for !served && time.Now().Before(deadline) && srv.D.Alive() {
+			time.Sleep(700 * time.Millisecond)
+			attempts++
+			ok, c := d.connect("shell1")
+			if c != nil {
+				c.client.Close()
+			}
+			served = ok
+		}
+		if !srv.D.Alive() {
+			r.Violation("server-died", map[string]interface{}{"scenario": "more connection attempts at once than the server has file descriptors", "log": vlib.Trunc(string(srv.D.Log()), 2500)})
+		} else if !served {
+			r.Violation("connection-refused-although-slots-free", map[string]interface{}{"scenario": fmt.Sprintf("%d simultaneous TCP connections against a server limited to 64 descriptors, all closed again; MaxConnections=5, nothing open", len(held)),
+				"probe_attempts_over_25_s": attempts, "stats_values_logged": c14Stats(srv)})
+		}
+		srv.Stop()
+	}
+}
+
 func c14Body(r *vlib.Run) int {
 	r.Rule("histories of {key login without channel, +1 shell, +3 channels, +3 shell requests on one channel, health login, non-session " +
 		"channel, unknown request type, wrong password/key/user, raw TCP connect+close before/mid handshake, orderly and abrupt (RST) " +
@@ -261,6 +325,10 @@ func c14Body(r *vlib.Run) int {
 		"min(k, Max-open); concurrent connect/close phases are recorded (call/return from one monotonic clock) and checked with " +
 		"porcupine against a sequential counter. distinct = distinct operation sequences; non-trivial = history with >= 3 operations.")
 	r.Assume("a connection counts as served iff it answers a global request after authentication; a refused one is closed by the server")
+	var shortage sync.WaitGroup
+	shortage.Add(1)
+	go func() { defer shortage.Done(); c14DescriptorShortage(r) }()
+	defer shortage.Wait()
 	nHist := r.N(150, 3000)
 	rng := r.Rng("hist")
 	key := clientKey()
